@@ -177,8 +177,8 @@ func (c *conn) Send(ctx context.Context, onExit func()) {
 	}
 }
 
-// errRefusedConnection ends a connection on which the server has refused a request.
-var errRefusedConnection = errors.New("hprose/rpc/websocket: the server ends the connection after refusing a request")
+// errRefusedConnection ends a connection on which the server has answered with an error frame.
+var errRefusedConnection = errors.New("hprose/rpc/websocket: the server ends the connection after an error frame")
 
 func (c *conn) receive() (err error) {
 	var (
@@ -217,13 +217,10 @@ func (c *conn) receive() (err error) {
 				Index: index,
 				Error: e,
 			}
-			if e == core.ErrRequestEntityTooLarge {
-				// the server ends the connection after this refusal (it has not read the
-				// request): the connection leaves the pool now, so that the next call
-				// does not go into it
-				return errRefusedConnection
-			}
-			return
+			// the server ends the connection after an error frame (after a refusal it has
+			// not even read the request): the connection leaves the pool now, so that the
+			// next call does not go into it
+			return errRefusedConnection
 		}
 		// no call is pending under that identifier: the frame can not be attributed
 		return e
